@@ -7,6 +7,7 @@ from ..oracles import cmd_tostr, cmd_fmt
 from .c18 import cmd_rand
 from . import c01, c02, c03, c06
 
+THOROUGH_SEEDS = 2   # the thorough tier repeats its staged workload over this many derived seeds
 RULE = ('sanitizers watching the real code: (1) a guard-page global allocator in the driver - every heap block ends (mode end) or '
         'starts (mode start) at an inaccessible page and freed blocks become inaccessible - under an EXHAUSTIVE (len a, len b) sweep '
         'of + and - in every big-by-big form on operands that exactly fill their allocation (clones) and on operands with slack, '
